@@ -675,7 +675,8 @@ def t_smt(t):
             # hard constraints only: drop soft assertions / objectives, enumerate models
             hard = [l for l in lines if not l.startswith("(assert-soft") and not l.startswith("(minimize") and
                     not l.startswith("(check-sat") and not l.startswith("(get-") and not l.startswith("(set-option :timeout")]
-            names = tvars + (["theta_%s" % v for v in theta] if uf else [])
+            avars = ["a_%d" % j for j in range(bounds.first_position_sequence, bounds.last_position_sequence + 1)] if p.push_basic else []
+            names = tvars + (["theta_%s" % v for v in theta] if uf else []) + avars
             models, blocks_ = [], []
             z3errors = None
             for it in range(t.get("models", 6)):
@@ -701,6 +702,9 @@ def t_smt(t):
                     seq = [inv.get(vals.get(tv)) for tv in tvars]
                 else:
                     seq = [theta.get(vals.get(tv)) for tv in tvars]
+                if avars:
+                    # the basic PUSH pushes the constant the model gives to a_j
+                    seq = ["PUSH#%s" % vals.get(av, "?") if x == "PUSH" else x for x, av in zip(seq, avars)]
                 models.append(seq)
                 if uf:
                     invn = {vals.get("theta_%s" % v): "theta_%s" % v for v in theta}
